@@ -8,6 +8,7 @@ let passes_of (p : string) : int =
   let p = fst (split_cfg p) in
   let p = (match String.index_opt p '%' with Some i -> String.sub p 0 i | None -> p) in
   let p = (match String.index_opt p '@' with Some i -> String.sub p 0 i | None -> p) in
+  let p = (match String.index_opt p '!' with Some i -> String.sub p 0 i | None -> p) in
   let n = String.length p in
   if n > 0 && p.[n - 1] = 'L' then int_of_string (String.sub p 0 (n - 1)) else int_of_string p
 
